@@ -688,7 +688,7 @@ impl<'a> Machine<'a> {
         if args.len() != def.params.len() {
             return inexact("argument count");
         }
-        if self.depth > 40 {
+        if self.depth > 200 {
             return inexact("recursion too deep for the reference");
         }
         let key = up(&def.name);
